@@ -98,9 +98,10 @@ func VerifH_serial_aescmac() {
 		id = 0
 	}
 	tag := 10 + verifrt.Choice("tsz", 7)
-	params, err := NewParameters(ParametersOpts{KeySizeInBytes: 32, TagSizeInBytes: tag, Variant: v})
+	ks := [...]int{32, 16}[verifrt.Choice("ks", 2)] // both key sizes NewParameters accepts
+	params, err := NewParameters(ParametersOpts{KeySizeInBytes: ks, TagSizeInBytes: tag, Variant: v})
 	verifrt.Assert(err == nil, "NewParameters")
-	k, err := NewKey(secretdata.NewBytesFromData(verifrt.Bytes("key", 32), insecuresecretdataaccess.Token{}), params, id)
+	k, err := NewKey(secretdata.NewBytesFromData(verifrt.Bytes("key", ks), insecuresecretdataaccess.Token{}), params, id)
 	verifrt.Assert(err == nil, "NewKey")
 	verifh.CheckKeyRoundTrip(k, &keySerializer{}, &keyParser{}, &parametersSerializer{}, &parametersParser{}, kind, id, typeURL, tinkpb.KeyData_SYMMETRIC)
 }
